@@ -145,6 +145,18 @@ func addMisc(e *Engine, m map[string]intrinsic) {
 		return tupleOf(p.normalizeJSON(args[0]), iface{})
 	}
 	m["os.Getenv"] = func(p *Path, fr *frame, args []value) value { return "" }
+	// util.UniqueErrors de-duplicates errors by their message text; messages built from
+	// symbolic values are approximations, so the de-duplication is skipped (the set of
+	// errors is returned as is: emptiness, which is what callers test, is preserved).
+	m["github.com/openconfig/ygot/util.UniqueErrors"] = func(p *Path, fr *frame, args []value) value { return args[0] }
+	for _, n := range []string{"github.com/openconfig/ygot/util.DbgPrint", "github.com/openconfig/ygot/util.DbgSchema", "github.com/openconfig/ygot/util.DbgErr",
+		"github.com/golang/glog.Errorf", "github.com/golang/glog.Infof", "github.com/golang/glog.Warningf", "github.com/golang/glog.Error", "github.com/golang/glog.Info", "github.com/golang/glog.Warning",
+		"github.com/golang/glog.Exitf", "github.com/golang/glog.Fatalf"} {
+		m[n] = func(p *Path, fr *frame, args []value) value { return nil }
+	}
+	m["github.com/openconfig/ygot/util.DbgErr"] = func(p *Path, fr *frame, args []value) value { return args[0] }
+	m["github.com/kr/pretty.Sprint"] = func(p *Path, fr *frame, args []value) value { return "" }
+	m["github.com/kr/pretty.Sprintf"] = func(p *Path, fr *frame, args []value) value { return "" }
 	// proto.Clone: structural deep copy of the message struct (stub; see DESIGN 2.6)
 	clone := func(p *Path, fr *frame, args []value) value {
 		it := args[0].(iface)
